@@ -26,8 +26,8 @@ from ..rules import cfg_nodes_with_call, cfg_of, guards_dominating
 
 OP_FEATURE = {
     "EQUALITIES": {"EQUALS"},
-    "NEGATIVE_CONDITIONS": {"NOT"},
-    "DISJUNCTIVE_CONDITIONS": {"OR", "IMPLIES"},
+    "NEGATIVE_CONDITIONS": {"NOT", "IMPLIES", "IFF"},  # a -> b is (not a) or b; a <-> b is (a and b) or (not a and not b)
+    "DISJUNCTIVE_CONDITIONS": {"OR", "IMPLIES", "IFF"},
     "EXISTENTIAL_CONDITIONS": {"EXISTS"},
     "UNIVERSAL_CONDITIONS": {"FORALL"},
     "INTERPRETED_FUNCTIONS_IN_CONDITIONS": {"INTERPRETED_FUNCTION_EXP"},
